@@ -93,7 +93,7 @@ BOUNDS = {
                  "select_multiset_max": {"json": 4, "json-adapter": 4, "yaml": 4, "yaml-adapter": 3},
                  "select_options": 128, "constructor_limit": [96, 0], "constructor_sizes": "limit-2..limit+2"},
 }
-CAP_S = {"quick": 150, "thorough": 1800}
+CAP_S = {"quick": 300, "thorough": 3600}
 TECHNIQUE = ("bounded exhaustive enumeration of rule sets x drivers x formatter options (and two-step histories) executed "
              "against the real evaluator and formatters; counting-argument oracle locating every rule in the output")
 LEVEL_TEXT = ("Every rule set of <= 3 (quick) / <= 4 (thorough) rules over an alphabet with one symbol per kind of return "
